@@ -203,6 +203,7 @@ type Node struct {
 	syncPre       *preState
 	wakeAt        time.Duration // a timed wait inside the library ends by then (committee retry)
 	wakeSeq       uint64
+	samples       []*sampleRec // State() snapshots taken by a concurrent consumer thread (C13)
 
 	// per-instance oracle state
 	regEpochStart   int
@@ -218,18 +219,24 @@ func (n *Node) height() uint64 {
 	if n.lh == nil {
 		return 0
 	}
+	n.w.ys.noPark++ // harness code reading the library's state (possibly on a library goroutine, inside a fake): never a preemption point
+	defer func() { n.w.ys.noPark-- }()
 	return uint64(n.lh.State().Height())
 }
 func (n *Node) view() uint64 {
 	if n.lh == nil {
 		return 0
 	}
+	n.w.ys.noPark++
+	defer func() { n.w.ys.noPark-- }()
 	return uint64(n.lh.State().View())
 }
 func (n *Node) hv() hv {
 	if n.lh == nil {
 		return hv{}
 	}
+	n.w.ys.noPark++
+	defer func() { n.w.ys.noPark-- }()
 	x := n.lh.State().HeightView()
 	return hv{uint64(x.Height()), uint64(x.View())}
 }
@@ -305,9 +312,11 @@ type World struct {
 	liveAbstain bool
 	stableBudget, stableStart, byzSteps int
 	advPlan  []string
+	planned  map[hv]*Block // blocks a Byzantine leader announced for views it will lead (byz.self-prepare)
 	yieldAll bool
 	yieldN   int
 	yields   []*yieldRec
+	ys       yieldState
 }
 
 func (w *World) ev(format string, args ...interface{}) {
@@ -497,7 +506,7 @@ func (w *World) startNode(n *Node) {
 	n.ctx, n.cancel = context.WithCancel(context.Background())
 	n.lh = leanhelix.NewLeanHelix(cfg, n.onCommit, n.onNewRound)
 	n.lh.Run(n.ctx)
-	synctest.Wait() // the new loops come to rest before the harness touches anything else
+	simWait() // the new loops come to rest before the harness touches anything else
 	w.ev("start n%d epoch%d", n.idx, n.epoch)
 }
 
@@ -533,7 +542,7 @@ func (w *World) releaseAllGates(n *Node) {
 
 // settle drives the worker controllers (if installed) with the default priority until nothing moves.
 func (w *World) quiesce() {
-	synctest.Wait()
+	simWait()
 	any := false
 	for _, n := range w.nodes {
 		if n.ctrl != nil {
@@ -553,7 +562,7 @@ func (w *World) quiesce() {
 		if !moved {
 			return
 		}
-		synctest.Wait()
+		simWait()
 	}
 	panic("quiesce: worker controllers did not settle")
 }
@@ -688,6 +697,8 @@ func RunBubble(t *testing.T, ch *Chooser, cfg *RunConfig, tracing bool, scen Sce
 		verifhook.AtFn = nil
 		verifhook.AtHVFn = nil
 		verifhook.ControllerFor = nil
+		verifhook.YieldFn = nil
+		verifhook.HeldFn = nil
 		if r := recover(); r != nil {
 			msg := fmt.Sprint(r)
 			if w != nil && (containsStr(msg, "blocked goroutines remain") || containsStr(msg, "deadlock")) {
@@ -709,6 +720,7 @@ func RunBubble(t *testing.T, ch *Chooser, cfg *RunConfig, tracing bool, scen Sce
 			stateSet: map[string]bool{}, extra: map[string]interface{}{}}
 		w.start = time.Now()
 		w.never = make(chan struct{})
+		spinWorld.Store(w)
 		verifhook.RecoveredPanicFn = w.onRecoveredPanic
 		verifhook.AtFn = func(p string) {
 			if w.atHook != nil {
@@ -717,6 +729,8 @@ func RunBubble(t *testing.T, ch *Chooser, cfg *RunConfig, tracing bool, scen Sce
 		}
 		verifhook.AtHVFn = w.atHV
 		verifhook.ControllerFor = w.controllerFor
+		verifhook.YieldFn = w.atYield
+		verifhook.HeldFn = w.atHeld
 		func() {
 			defer func() {
 				if r := recover(); r != nil {
@@ -771,7 +785,7 @@ func containsStr(s, sub string) bool {
 // drainNode lets a cancelled node run to its end, one hand-shake at a time.
 func (w *World) drainNode(n *Node) {
 	for i := 0; i < 100000; i++ {
-		synctest.Wait()
+		simWait()
 		moved := false
 		if n.ctrl != nil && n.ctrl.shutdownStep() {
 			moved = true
@@ -787,10 +801,14 @@ func (w *World) drainNode(n *Node) {
 }
 
 func (w *World) shutdownAll() {
-	synctest.Wait()
+	simWait()
+	w.ys.arm = nil
 	w.yieldAll = false
 	w.releaseYields()
-	synctest.Wait()
+	if w.releaseLooseYields() {
+		simWait()
+	}
+	simWait()
 	for _, n := range w.nodes {
 		if n.alive {
 			w.stopNode(n)
@@ -798,7 +816,7 @@ func (w *World) shutdownAll() {
 	}
 	// let controllers drain: choose done for every parked worker
 	for i := 0; i < 100000; i++ {
-		synctest.Wait()
+		simWait()
 		moved := false
 		for _, n := range w.nodes {
 			if n.ctrl != nil && n.ctrl.shutdownStep() {
@@ -813,7 +831,7 @@ func (w *World) shutdownAll() {
 			break
 		}
 	}
-	synctest.Wait()
+	simWait()
 }
 
 func (w *World) endStateHash() string {
@@ -874,4 +892,14 @@ func forwardedByMainLoop(raw *interfaces.ConsensusRawMessage) (ok bool) {
 		}
 	}()
 	return raw != nil && interfaces.ToConsensusMessage(raw) != nil
+}
+
+// sampleRec: one State().HeightView() call made by a consumer thread while the loops run.
+type sampleRec struct {
+	pre     hv // state seen by the harness at the quiescent point at which the call was started
+	val     hv
+	done    bool
+	checked bool
+	epoch   int
+	step    int
 }
